@@ -44,7 +44,7 @@ REAL_VS_STUB = {"real": ["molli.chem.ensemble.ConformerEnsemble / Conformer", "_
 INTERP_VARIANTS = [{"flags": ["-O"], "runs": {"quick": 2000, "thorough": 30000}, "what": "python -O (assert statements stripped from the code under test)"}]
 PROBES = ["iter_plain", "iter_nested", "iter_zip", "iter_restart", "two_or_more_tasks_interleaved", "mutator_between_nexts", "append", "extend_list",
           "extend_ens", "extend_oneshot_iterable", "held_view_checked_after_mutation", "refused_append_or_extend", "atom_relabelled_between_stores", "copy_construct", "rebuild_from_conformers", "slice", "write_through_conformer", "serialise_roundtrip", "conformer_dump",
-          "empty_ensemble_iterated", "history_continues_on_reloaded_ensemble", "conformers_of_a_temporary_ensemble", "ensemble_dump_roundtrip", "own_conformers_appended", "per_conformer_rotation", "refused_rotation"]
+          "empty_ensemble_iterated", "history_continues_on_reloaded_ensemble", "conformers_of_a_temporary_ensemble", "ensemble_dump_roundtrip", "own_conformers_appended", "per_conformer_rotation", "refused_rotation", "iter_legacy_next"]
 
 TEMPLATES = {
     "neon": (["Ne"], []),
@@ -75,6 +75,8 @@ def gen_plan(r, tier, index):
         else:
             nt = r.choice([1, 1, 2, 2, 3])
             tasks = [{"shape": r.choice(["plain", "plain", "nested", "zip", "restart"])} for _ in range(nt)]
+            if r.random() < 0.2:
+                tasks.append({"shape": "legacy_next"})
             mut = []
             if r.random() < 0.5:
                 for _ in range(r.choice([1, 2, 4])):
@@ -501,6 +503,16 @@ def _iter_phase(ph, st, res, viol, check_inv, ctx, na, log, ser, deser, msgpack)
             if len(out) > nc + 2:
                 return
 
+    def legacy_next(tid):
+        # somebody still drives the ensemble through the old protocol - next(ens) on the ensemble object itself - while
+        # proper iterations are in flight.  What the old protocol returns is not judged; the iterations must not notice.
+        for _ in range(nc + 1):
+            yield "next"
+            try:
+                next(ens)
+            except Exception:  # noqa: BLE001 - StopIteration, or whatever the old protocol does when used like this: not judged
+                pass
+
     def mutator(tid):
         for k, mo in enumerate(ph["mutator"]):
             yield "mut"
@@ -513,7 +525,7 @@ def _iter_phase(ph, st, res, viol, check_inv, ctx, na, log, ser, deser, msgpack)
 
     held = [ens[i] for i in range(nc)]      # long-lived views: they must stay live whatever happens to the ensemble
     st["held"] = held
-    makers = {"plain": plain, "nested": nested, "zip": zipped, "restart": restart}
+    makers = {"plain": plain, "nested": nested, "zip": zipped, "restart": restart, "legacy_next": legacy_next}
     tasks = []
     for tid, t in enumerate(ph["tasks"]):
         tasks.append((tid, t["shape"], makers[t["shape"]](tid)))
@@ -552,7 +564,7 @@ def _iter_phase(ph, st, res, viol, check_inv, ctx, na, log, ser, deser, msgpack)
     log.append((shapes, order))
     # ---- the iteration oracle
     for tid, shape, _g in tasks:
-        if shape == "mutator":
+        if shape in ("mutator", "legacy_next"):
             continue
         got = observed.get(tid, [])
         if shape in ("plain", "restart"):
